@@ -1245,6 +1245,23 @@ func c15GenCase(r *rand.Rand, id int, kind string, risky *string, riskF *float64
 				c.Nodes[i].Pts = append(c.Nodes[i].Pts, sPoint{Type: "nodeID", Key: key, Text: ref})
 			}
 		}
+		// ordinary points whose text happens to be the id of a node of the tree (ids are free text: "pump1"); only
+		// nodeID points are references, every other text is kept as it is
+		for i := range c.Nodes {
+			if !g.inSubtree(c.Top, c.Nodes[i].ID, 0) || r.Intn(5) != 0 {
+				continue
+			}
+			typ, key := []string{"units", "tag", "phone"}[r.Intn(3)], []string{"", "id", "k"}[r.Intn(3)]
+			dup := false
+			for _, p := range c.Nodes[i].Pts {
+				if p.Type == typ && storeNormKey(p.Key) == storeNormKey(key) {
+					dup = true
+				}
+			}
+			if !dup {
+				c.Nodes[i].Pts = append(c.Nodes[i].Pts, sPoint{Type: typ, Key: key, Text: tree[r.Intn(len(tree))]})
+			}
+		}
 		// mirrors inside the tree, and of the top node outside it
 		for k := r.Intn(3); k > 0 && len(tree) > 2; k-- {
 			x := tree[1+r.Intn(len(tree)-1)]
